@@ -17,14 +17,14 @@ for f in sorted(glob.glob(os.path.join(V, 'seeded', '*', 'meta.json'))):
     key = 'caught after strengthening' if 'after' in st else ('caught' if st.startswith('caught') else ('undecided' if 'undecided' in st else 'missed'))
     cnt[key] = cnt.get(key, 0) + 1
     rows.append('| %s | %s | %s | %s |' % (m['id'], title.replace('|', '/'), ('**%s**' % st) if key in ('missed', 'undecided') else st, m['failing_obligation'].replace('|', '/')))
-head = '''### 0.8 Seeded changes (`/verif/seeded/<id>-{A..G,J,K,L,H,HH}`)
+head = '''### 0.8 Seeded changes (`/verif/seeded/<id>-{A..G,J,K,L,M,H,HH}`)
 
 Produced by fresh sub-agents that saw only the property text and their own scratch worktree; each
 compiles, passes the 55 tests and has a demo that fails with the change and passes without. I
 confirmed each (`tools/seedtest.sh` / `tools/seedtest3.sh`), ran the property's check on it, undid it;
 `tools/seed_regress.sh` re-runs all of them against the current contracts on scratch copies
 (`VP_NO_STANDIN=1` for proofs only). Letters: `-A`, `-B` first two rounds (32 changes), `-C`, `-D` third
-round (32), `-E` fourth round (16 breaking), `-F` fifth round (16 breaking), `-G`, `-J` sixth round (32 breaking; the sub-agents were given the list of all earlier changes and told to be different in kind), `-K`, `-L` seventh round (32 breaking; pointed at constructors, Display/From impls, writers, configuration builders, unusual literal types, error paths and interactions between two public calls), `-H` / `-HH` fourth and fifth
+round (32), `-E` fourth round (16 breaking), `-F` fifth round (16 breaking), `-G`, `-J` sixth round (32 breaking; the sub-agents were given the list of all earlier changes and told to be different in kind), `-K`, `-L` seventh round (32 breaking; pointed at constructors, Display/From impls, writers, configuration builders, unusual literal types, error paths and interactions between two public calls), `-M` eighth round (2 breaking, C11 and C12: a short round in the continuation session of 2026-10-05; C12-M fails the loop invariant of `Renumber::transfer` at the const-fold `continue`, C11-M rewrites a guarded statement so the proof side loses its anchor - exit 2 on its own - and the bounded writer suite decides), `-H` / `-HH` fourth and fifth
 round (16 + 16 harmless refactorings, listed separately below). The titles are the sub-agents' own and may carry their own round/letter labels.
 A BTOR2-only stand-in existed from the first round (obligations then named `standin:btor2::...`, now `standin:fmt:btor2::...`); the suites for all crates were added after the third round, in response to it; "now:" lists what
 the current machinery reports for the same change.
